@@ -144,6 +144,9 @@ class ConcH:
     def text_number(self, tok):
         return float(tok)
 
+    def enable_dtype_model(self):
+        return
+
     def frac(self, a, b=1):
         return a / b
 
@@ -325,7 +328,8 @@ def run_job(job):
             for fr in tb:
                 if '/prysm/' in fr.filename:
                     where = '%s:%d' % (fr.filename, fr.lineno)
-            exc = {'type': type(e).__name__, 'msg': str(e)[:300], 'where': where}
+            hl = [fr.lineno for fr in tb if '/props/' in fr.filename]
+            exc = {'type': type(e).__name__, 'msg': str(e)[:300], 'where': where, 'hline': hl[-1] if hl else None}
         finally:
             np.seterr(**old)
             for f in getattr(H, '_tmpfiles', []):
